@@ -88,8 +88,11 @@ def _backward_group_order(fc, R6: RuleResult):
                 continue
             segs = set()
             for d in defs.get(s.id, []):
-                if isinstance(d, ast.Call) and ac.is_autograd_grad(d) and len(d.args) >= 2:
-                    clo = def_use_closure(bw.node, names_loaded(d.args[1]), defs)
+                if isinstance(d, ast.Call) and ac.is_autograd_grad(d):
+                    inp = ac._kw(d, "inputs") or (d.args[1] if len(d.args) >= 2 else None)
+                    if inp is None:
+                        continue
+                    clo = def_use_closure(bw.node, names_loaded(inp), defs)
                     segs |= {seg_of[n] for n in clo if n in seg_of}
             order.append(segs.pop() if len(segs) == 1 else None)
         what = "backward returns starred groups %s built from segments %s" % ([ast.unparse(s) for s in stars], order)
